@@ -1,10 +1,10 @@
-\* named deviation (must be refuted): embedded view batch count = len/96, as before 1115b56 -> ASSUME ReaderWriterAgree false
+\* named deviation (must be refuted): structures without timestamps are not preserved (seeded change C13-s10) -> ASSUME ArraysPreserved false
 CONSTANT SubmeshStep = 48
 CONSTANT AnimBoneRule = "table"
 CONSTANT RelocAdvanceAlways = FALSE
-CONSTANT CollectSkipRule = "all-empty"
+CONSTANT CollectSkipRule = "no-times"
 CONSTANT SaveTruncates = TRUE
-CONSTANT ViewBatchBytes = 96
+CONSTANT ViewBatchBytes = 24
 INIT Init
 NEXT Next
 INVARIANT CursorIsEmitted
